@@ -15,10 +15,10 @@ func init() {
 	Registry["C14"] = func(c *Ctx) {
 		c.R.NotDecided = append(c.R.NotDecided, "ordered / de-duplicated delivery and exact loss accounting over arrival histories (numeric, history dependent); agreement of RTCP reports with the history")
 		c14Lock(c)
-		c14RingIndex(c)
+		c14RingIndex(c, "C14/RING-INDEX")
 		ringTypeRule(c, "C14/RING-TYPE", []string{"pkg/rtpreceiver", "pkg/rtpreorderer", "pkg/rtplossdetector"}, 1)
 		perPacketRule(c, "C14/PER-PACKET", []string{"pkg/rtpreceiver", "pkg/rtpreorderer", "pkg/rtplossdetector"}, 1)
-		c14ConsecutiveCounter(c)
+		c14ConsecutiveCounter(c, "C14/CONSECUTIVE-COUNTER")
 	}
 	Registry["C15"] = func(c *Ctx) {
 		c.R.NotDecided = append(c.R.NotDecided, "numerical exactness of the PTS / NTP mapping; placement of late tracks on the leading track's timeline (value level)")
@@ -138,12 +138,12 @@ func ringTypeRule(c *Ctx, rule string, rels []string, floor int) {
 }
 
 // c14RingIndex: every index into the reorder buffer is masked.
-func c14RingIndex(c *Ctx) {
+func c14RingIndex(c *Ctx, rule string) {
 	p, r := c.P, c.R
-	r.Rule("C14/RING-INDEX", "every index into the reorder ring is either masked with len(buffer)-1 at the point of use or the ring position field, which is only ever left holding a masked value", 6)
+	r.Rule(rule, "every index into the reorder ring is either masked with len(buffer)-1 at the point of use or the ring position field, which is only ever left holding a masked value", 6)
 	bufF := p.Field("pkg/rtpreceiver", "Receiver", "buffer")
 	posF := p.Field("pkg/rtpreceiver", "Receiver", "absPos")
-	if !r.Anchor("C14/RING-INDEX", "rtpreceiver.Receiver.{buffer,absPos}", bufF != nil && posF != nil) {
+	if !r.Anchor(rule, "rtpreceiver.Receiver.{buffer,absPos}", bufF != nil && posF != nil) {
 		return
 	}
 	isMasked := func(v ssa.Value) bool {
@@ -180,16 +180,16 @@ func c14RingIndex(c *Ctx) {
 				construct := fmt.Sprintf("%s ring index #%d", fnShort(fn), nth)
 				idx := ia.Index
 				if isMasked(idx) {
-					r.OK("C14/RING-INDEX", construct, p.Pos(ia.Pos()), "masked with len(buffer)-1")
+					r.OK(rule, construct, p.Pos(ia.Pos()), "masked with len(buffer)-1")
 					continue
 				}
 				if ld, ok := idx.(*ssa.UnOp); ok {
 					if fa2, ok := ld.X.(*ssa.FieldAddr); ok && core.FieldOfAddr(fa2) == posF {
-						r.OK("C14/RING-INDEX", construct, p.Pos(ia.Pos()), "the ring position field (kept masked, see the store check)")
+						r.OK(rule, construct, p.Pos(ia.Pos()), "the ring position field (kept masked, see the store check)")
 						continue
 					}
 				}
-				r.Fail("C14/RING-INDEX", construct, p.Pos(ia.Pos()), "index "+core.PathOf(idx)+" is neither masked nor the ring position")
+				r.Fail(rule, construct, p.Pos(ia.Pos()), "index "+core.PathOf(idx)+" is neither masked nor the ring position")
 			}
 		}
 	}
@@ -201,7 +201,7 @@ func c14RingIndex(c *Ctx) {
 		}
 		construct := fnShort(acc.Fn) + " stores absPos"
 		if isMasked(st.Val) {
-			r.OK("C14/RING-INDEX", construct+" (masked)", p.Pos(st.Pos()), "masked value")
+			r.OK(rule, construct+" (masked)", p.Pos(st.Pos()), "masked value")
 			continue
 		}
 		// next store to absPos in the same block must be masked, with no buffer access in between
@@ -225,19 +225,19 @@ func c14RingIndex(c *Ctx) {
 				}
 			}
 		}
-		r.Check(okNext, "C14/RING-INDEX", construct+" (increment)", p.Pos(st.Pos()), "re-masked before the ring is touched again", "the ring position is left unmasked: the next access can fall outside the ring")
+		r.Check(okNext, rule, construct+" (increment)", p.Pos(st.Pos()), "re-masked before the ring is touched again", "the ring position is left unmasked: the next access can fall outside the ring")
 	}
 	if n == 0 {
-		r.Fail("C14/RING-INDEX", "ring accesses", "", "none found")
+		r.Fail(rule, "ring accesses", "", "none found")
 	}
 }
 
 // c14ConsecutiveCounter: a counter that triggers a restart when it exceeds a
 // threshold counts CONSECUTIVE events only if every path that does not count
 // one resets it.
-func c14ConsecutiveCounter(c *Ctx) {
+func c14ConsecutiveCounter(c *Ctx, rule string) {
 	p, r := c.P, c.R
-	r.Rule("C14/CONSECUTIVE-COUNTER", "a counter of the receiver that is incremented on one branch, compared with a threshold and zeroed when the threshold trips, is also zeroed on every path that does not increment it: it counts consecutive events (a restarted sender is recognised after buffer-size+1 late packets in a row, not after that many over the whole session)", 1)
+	r.Rule(rule, "a counter of the receiver that is incremented on one branch, compared with a threshold and zeroed when the threshold trips, is also zeroed on every path that does not increment it: it counts consecutive events (a restarted sender is recognised after buffer-size+1 late packets in a row, not after that many over the whole session)", 1)
 	st, ok := p.Named("pkg/rtpreceiver", "Receiver").Underlying().(*types.Struct)
 	if !ok {
 		return
@@ -296,14 +296,14 @@ func c14ConsecutiveCounter(c *Ctx) {
 			miss, path, _ := core.PathAvoiding(fn, nil, core.IsReturn, isEvent)
 			construct := fmt.Sprintf("%s counter %s", fnShort(fn), f.Name())
 			if miss {
-				r.FailPath("C14/CONSECUTIVE-COUNTER", construct, p.Pos(e.inc[0].Pos()), "a path through the function neither increments nor resets the counter: it accumulates over the whole session and eventually trips on an isolated late packet", core.BlockPath(p, fn, path))
+				r.FailPath(rule, construct, p.Pos(e.inc[0].Pos()), "a path through the function neither increments nor resets the counter: it accumulates over the whole session and eventually trips on an isolated late packet", core.BlockPath(p, fn, path))
 			} else {
-				r.OK("C14/CONSECUTIVE-COUNTER", construct, p.Pos(e.inc[0].Pos()), "incremented or reset on every path")
+				r.OK(rule, construct, p.Pos(e.inc[0].Pos()), "incremented or reset on every path")
 			}
 		}
 	}
 	if n == 0 {
-		r.Fail("C14/CONSECUTIVE-COUNTER", "consecutive counters", "", "none found: the anchor (negativeCount in Receiver.reorder) moved")
+		r.Fail(rule, "consecutive counters", "", "none found: the anchor (negativeCount in Receiver.reorder) moved")
 	}
 }
 
@@ -370,6 +370,75 @@ func perPacketRule(c *Ctx, rule string, rels []string, floor int) {
 			_ = ranged
 			nloop[fn]++
 			construct := fmt.Sprintf("%s packet loop #%d", fnShort(fn), nloop[fn])
+			// loop-carried state: a receiver field that the body combines with a field of the loop
+			// element (difference, comparison) describes "the previous packet"; it must be updated
+			// inside the loop, or every packet of a batch is compared with the packet before the batch
+			derivesFromElem := func(v ssa.Value) bool {
+				seen := map[ssa.Value]bool{}
+				var walk func(v ssa.Value, d int) bool
+				walk = func(v ssa.Value, d int) bool {
+					if v == nil || seen[v] || d > 8 {
+						return false
+					}
+					seen[v] = true
+					switch x := v.(type) {
+					case *ssa.IndexAddr:
+						return x.X == ranged
+					case *ssa.UnOp:
+						return walk(x.X, d+1)
+					case *ssa.FieldAddr:
+						return walk(x.X, d+1)
+					case *ssa.Convert:
+						return walk(x.X, d+1)
+					case *ssa.ChangeType:
+						return walk(x.X, d+1)
+					}
+					return false
+				}
+				return walk(v, 0)
+			}
+			recvField := func(v ssa.Value) *types.Var {
+				for {
+					switch x := v.(type) {
+					case *ssa.Convert:
+						v = x.X
+						continue
+					case *ssa.ChangeType:
+						v = x.X
+						continue
+					case *ssa.UnOp:
+						if fa, ok := x.X.(*ssa.FieldAddr); ok && x.Op == token.MUL && len(fn.Params) > 0 && fa.X == ssa.Value(fn.Params[0]) {
+							return core.FieldOfAddr(fa)
+						}
+					}
+					return nil
+				}
+			}
+			carried := map[*types.Var]string{}
+			storedInLoop := map[*types.Var]bool{}
+			for _, bb := range fn.Blocks {
+				if !b.Dominates(bb) {
+					continue
+				}
+				for _, in := range bb.Instrs {
+					switch x := in.(type) {
+					case *ssa.BinOp:
+						for _, pair := range [][2]ssa.Value{{x.X, x.Y}, {x.Y, x.X}} {
+							if f := recvField(pair[0]); f != nil && derivesFromElem(pair[1]) {
+								carried[f] = p.Pos(x.Pos())
+							}
+						}
+					case *ssa.Store:
+						if fa, ok := x.Addr.(*ssa.FieldAddr); ok && len(fn.Params) > 0 && fa.X == ssa.Value(fn.Params[0]) {
+							storedInLoop[core.FieldOfAddr(fa)] = true
+						}
+					}
+				}
+			}
+			for f, at := range carried {
+				r.Check(storedInLoop[f], rule, fmt.Sprintf("%s packet loop #%d carries %s", fnShort(fn), nloop[fn], f.Name()), at, "updated inside the loop",
+					"the loop compares each released packet with "+f.Name()+" but never updates it inside the loop: every packet of a batch is compared with the packet that preceded the batch (a wrap inside a batch is counted once per packet)")
+			}
 			r.Check(n == 0, rule, construct, p.Pos(b.Instrs[0].Pos()), "the body never reads parameter "+prm.Name(),
 				fmt.Sprintf("the loop body reads the arriving packet (parameter %s) %d time(s), first at %s, instead of the packet being delivered: with reordering, one arrival releases several packets and the per-packet state follows the wrong one", prm.Name(), n, bad))
 		}
